@@ -159,3 +159,10 @@ Example C06_example_relative_depth :
   proper_below ex_tree = true.
 Proof. vm_compute. repeat split; reflexivity. Qed.
 Print Assumptions C06_example_relative_depth.
+
+(* fixes/D130: a FILE given as scan root is walked alone, at depth 0; its parent directory was not walked and
+   gets no record (a directory that was not walked has no count), so such a run reports no limit result *)
+Theorem C06_file_root_has_no_stats : forall es,
+  (forall e, In e es -> e_kind e = KFile /\ e_depth e = 0) -> scan_counts es = [].
+Proof. exact file_roots_no_stats. Qed.
+Print Assumptions C06_file_root_has_no_stats.
